@@ -224,6 +224,20 @@ def scenarios(tier, seed):
             out.append(('exact array ops stay exact', O.is_none((C * C + C / 2 - C).error)))
             return out
         ''', A6, E2, preamble=PRE, what='sum/difference of uncertain array magnitudes'))
+    S.append(Scenario('array/quantity-sums', '''
+        def run(v, O):
+            a = Quantity(O.arr([v.a0, v.a1]), 'cm', abse=v.ea); b = Quantity(O.arr([v.b0, v.b1]), 'm', abse=v.eb)
+            s3 = b + a + a
+            d3 = b - a - a
+            out = []
+            for i in (0, 1):
+                out.append((f'b+a+a[{i}]: uncertainties add up (a converted into metres)', O.eq(s3.abse()[i], v.eb + 2 * v.ea / 100, 1e-9)))
+                out.append((f'b-a-a[{i}]: uncertainties add up', O.eq(d3.abse()[i], v.eb + 2 * v.ea / 100, 1e-9)))
+                out.append((f'a[{i}] keeps its own uncertainty', O.eq(a.abse()[i], v.ea, 1e-9)))
+            s4 = a + b + a + b
+            out.append(('a+b+a+b[0]: uncertainties add up (b converted into centimetres)', O.eq(s4.abse()[0], 2 * v.ea + 200 * v.eb, 1e-9)))
+            return out
+        ''', A6, E2, preamble=PRE, what='sums of three and four uncertain array quantities in different units'))
     S.append(Scenario('array/scale', '''
         def run(v, O):
             A = Magnitude(O.arr([v.a0, v.a1]), v.ea)
